@@ -239,8 +239,9 @@ _BINOPS = {
 _DUNDER = {
     ast.Add: ('__add__', '__radd__'), ast.Sub: ('__sub__', '__rsub__'), ast.Mult: ('__mul__', '__rmul__'),
     ast.Mod: ('__mod__', '__rmod__'), ast.BitOr: ('__or__', '__ror__'), ast.BitAnd: ('__and__', '__rand__'),
-    ast.Div: ('__truediv__', '__rtruediv__'),
+    ast.Div: ('__truediv__', '__rtruediv__'), ast.FloorDiv: ('__floordiv__', '__rfloordiv__'),
 }
+_BINOP_DUNDERS = _DUNDER
 _CMPOPS = {
     ast.Eq: operator.eq, ast.NotEq: operator.ne, ast.Lt: operator.lt, ast.LtE: operator.le,
     ast.Gt: operator.gt, ast.GtE: operator.ge,
@@ -481,6 +482,9 @@ class Interp:
         if isinstance(selfobj, str) and (any(contains_sym(a) for a in args)):
             from . import strings
             return strings.call_method(self, SStr(z3.StringVal(selfobj)), name, args, kwargs)
+        if name == '__init__' and isinstance(selfobj, BaseException) and type(f).__name__ == 'method-wrapper':
+            # BaseException.__init__ only stores its arguments in .args
+            return self._native(f, args, kwargs)
         if selfobj is not None and not isinstance(selfobj, types.ModuleType):
             if (type(selfobj), name) in _SAFE_NATIVE_METHODS:
                 if type(selfobj) is dict and name in ('get', 'pop', 'setdefault', '__contains__') and args \
@@ -633,6 +637,13 @@ class Interp:
             return BoundMethod(v.__func__, type(obj) if not isinstance(obj, type) else obj, k)
         if isinstance(v, property):
             return self.call_function_object(v.fget, [obj], {}, k)
+        if hasattr(type(v), '__get__') and not isinstance(obj, type):
+            # a native descriptor found in class k (e.g. Exception.__init__ reached through super()):
+            # bind THAT descriptor -- getattr(obj, name) would start again at the most derived class
+            try:
+                return v.__get__(obj, type(obj))
+            except Exception as e:
+                raise PyRaise(e)
         return self._native_getattr(obj, name)
 
     def _native_getattr(self, obj, name):
@@ -1508,7 +1519,7 @@ class Interp:
         t = node.target
         if isinstance(t, ast.Name):
             cur = self.lookup(self.mangle(t.id, frame.info.class_name), frame)
-            new = self._aug(type(node.op), cur, self.eval(node.value, frame))
+            new = self._aug(type(node.op), cur, self.eval(node.value, frame), holder=frame.locals)
             self.store_name(self.mangle(t.id, frame.info.class_name), new, frame)
         elif isinstance(t, ast.Attribute):
             obj = self.eval(t.value, frame)
@@ -1526,12 +1537,26 @@ class Interp:
             raise Unsupported('augmented assignment target')
         return None
 
-    def _aug(self, opcls, cur, val):
+    def _aug(self, opcls, cur, val, holder=None):
         if opcls is ast.Add and isinstance(cur, list):
             # list += iterable mutates in place
             if isinstance(val, (SOpt, SChoice)):
                 val = self.resolve(val)
+            if isinstance(val, SList):
+                # a concrete list extended by a sequence of symbolic length: it becomes a (mutable) symbolic
+                # list.  The name is re-bound to the new object, which is only faithful when nothing else
+                # refers to the old list: checked (conservatively) through the garbage collector.
+                if holder is None or not _only_referenced_from(cur, holder):
+                    raise Unsupported('`+=` of a symbolic-length sequence to a concrete list that may be aliased')
+                from . import seqs
+                return seqs.copy(seqs.concat(self, list(cur), val))
             cur.extend(list(self.iterate(val)))
+            return cur
+        if opcls is ast.Add and isinstance(cur, SList) and not cur.immutable:
+            if isinstance(val, (SOpt, SChoice)):
+                val = self.resolve(val)
+            from . import seqs
+            seqs.method(self, cur, 'extend', [val], {})
             return cur
         return self.binop(opcls, cur, val)
 
@@ -1809,10 +1834,20 @@ class Interp:
 
     def s_ImportFrom(self, node, frame):
         import importlib
+        import importlib.util
+        modname = node.module
         if node.level:
-            raise Unsupported('relative import')
+            # relative import: resolved against the package of the module the function lives in
+            g = frame.info.globals
+            pkg = g.get('__package__') or (g.get('__name__', '').rpartition('.')[0])
+            if not pkg:
+                raise Unsupported('relative import outside a package')
+            try:
+                modname = importlib.util.resolve_name('.' * node.level + (node.module or ''), pkg)
+            except Exception as e:
+                raise PyRaise(e)
         try:
-            mod = importlib.import_module(node.module)
+            mod = importlib.import_module(modname)
         except Exception as e:
             raise PyRaise(e)
         for al in node.names:
@@ -1820,7 +1855,7 @@ class Interp:
                 v = getattr(mod, al.name)
             except AttributeError:
                 try:
-                    v = importlib.import_module(node.module + '.' + al.name)
+                    v = importlib.import_module(modname + '.' + al.name)
                 except Exception as e:
                     raise PyRaise(e)
             frame.locals[al.asname or al.name] = v
@@ -1923,6 +1958,20 @@ def _slice_sym(idx):
     if isinstance(idx, slice):
         return any(isinstance(x, Sym) for x in (idx.start, idx.stop, idx.step))
     return isinstance(idx, Sym)
+
+
+def _only_referenced_from(obj, holder):
+    """True iff no container other than the dict `holder` (a frame's locals) refers to `obj`.
+    Interpreter stack frames and function cells do not count (they are temporaries of the engine)."""
+    import gc
+    for r in gc.get_referrers(obj):
+        if r is holder:
+            continue
+        if isinstance(r, types.FrameType) or type(r).__name__ in ('cell',):
+            continue
+        if isinstance(r, (dict, list, tuple, set, frozenset)) or hasattr(r, '__dict__') or hasattr(r, '__slots__'):
+            return False
+    return True
 
 
 def _static_lookup(cls, name):
